@@ -296,7 +296,7 @@ class Model:
 # ---- binding scenarios on the built-in agents (same step function, verdicts witnessed) -------------
 # root = [threshold, breaker, cache, "real", budget]; ops: ["rreq", prompt, fresh?]
 def real_scenarios():
-    D = lambda i: f"deploy build {i}"  # noqa: E731 - built-in executor answers FAILURE to 'deploy'
+    D = lambda i: f"deploy-build-{i}"  # noqa: E731 - built-in executor answers FAILURE to "deploy"; one token, so its memory of earlier crashes does not match
     return [
         ("executor-failure-trips", [2, True, False, "real", 1000],
          [["rreq", D(1)], ["rreq", D(2)], ["rreq", "hello"], ["advance", 10], ["rreq", "hello again"], ["rreq", "hello 3"]]),
